@@ -43,11 +43,12 @@ type c10Scenario struct {
 
 func init() {
 	register(&PropDef{
-		ID:   "C10",
-		Rule: "scenario = a sequence of phases on a stream-managed session: bursts of Send/SendRaw from 1-3 concurrent sender tasks (stanzas and SM requests), server <r/>, and server acknowledgements with h = what a real server counted / 0 / partial / everything / more than sent / repeated / smaller than before; non-trivial = at least one acknowledgement was processed while stanzas were held; distinct = distinct (scenario hash, schedule hash)",
-		Real: []string{"Client.Send / SendRaw SM bookkeeping", "Router.route on <a/> and SendMissingStz", "stanza.UnAckQueue", "recv loop (answers to <r/>)"},
-		Stub: []string{"TCP (simnet)", "XMPP server (scripted model counting stanzas like XEP-0198 says)", "clock (synctest)", "goroutine scheduling (token scheduler)", "sync.RWMutex (equivalent shim)"},
-		Run:  runC10,
+		ID:    "C10",
+		Rule:  "scenario = a sequence of phases on a stream-managed session: bursts of Send/SendRaw from 1-3 concurrent sender tasks (stanzas and SM requests), server <r/>, and server acknowledgements with h = what a real server counted / 0 / partial / everything / more than sent / repeated / smaller than before; non-trivial = at least one acknowledgement was processed while stanzas were held; distinct = distinct (scenario hash, schedule hash)",
+		Real:  []string{"Client.Send / SendRaw SM bookkeeping", "Router.route on <a/> and SendMissingStz", "stanza.UnAckQueue", "recv loop (answers to <r/>)"},
+		Stub:  []string{"TCP (simnet)", "XMPP server (scripted model counting stanzas like XEP-0198 says)", "clock (synctest)", "goroutine scheduling (token scheduler)", "sync.RWMutex (equivalent shim)"},
+		Run:   runC10,
+		Reach: []string{"c10.resumed_at_end", "c10.new_session_after_refused_resume", "c10.raw_sm_element_sent"},
 	})
 }
 
